@@ -696,14 +696,14 @@ recorded knot vector is the padding of interior knots that are non-decreasing an
 bounds — the hypothesis `KnotsOk` of the value theorems.  For `extrapolation="extend"` the code
 takes the quantiles of ALL the data, so this needs the data to lie inside the bounds. -/
 theorem prepareBs_df_knotsOk {r : RawBs} {st : BSpline.State} {mode : BSpline.Mode}
-    (h : prepareBs r quantLin = .ok (st, mode)) (df : Int) (hdf : r.df = some df) (hne : df ≠ 0)
+    (h : prepareBs r quantLin = .ok (st, mode)) (df : Int) (hdf : r.df = some df)
     (hext : mode = .extend → ∀ v ∈ BSpline.nonNull r.x, st.lower ≤ v ∧ v ≤ st.upper) :
     ∃ interior, st.knots = BSpline.padKnots st.lower interior st.upper r.degree.toNat ∧
       KnotsOk st.lower st.upper interior := by
   obtain ⟨_, _, _, _, hraise, _, interior, hik, hk⟩ := prepareBs_inv h
   refine ⟨interior, hk, ?_⟩
   unfold interiorKnots at hik
-  simp only [hdf, hne, if_false] at hik
+  simp only [hdf] at hik
   by_cases c1 : df - r.degree - (if r.intercept = true then 1 else 0) < 0
   · rw [if_pos c1] at hik; cases hik
   rw [if_neg c1] at hik
